@@ -709,10 +709,14 @@ impl Prop for C18 {
                     let rows = t.fresh_rows(rng, n, false);
                     cmds.push(Cmd::Call { rv: None, op: Op::Overwrite { f: Self::gen_f(rng), rows } });
                 }
-                60..=66 => cmds.push(Cmd::Restore(Ver::Rel(1 + rng.below(4)))),
+                60..=66 => {
+                    // one of the (up to 4) previous versions; `cmds.len()` is about the number of versions so far
+                    let back = (cmds.len() as u64).saturating_sub(1).clamp(1, 4);
+                    cmds.push(Cmd::Restore(Ver::Rel(1 + rng.below(back))))
+                }
                 67..=94 => {
                     // two (sometimes three) writers that have read the same version commit one after the other
-                    let k0 = if rng.chance(3, 4) { 0 } else { 1 + rng.below(2) };
+                    let k0 = if rng.chance(3, 4) || cmds.len() < 3 { 0 } else { 1 + rng.below(2) };
                     let n = if rng.chance(1, 4) { 3 } else { 2 };
                     for i in 0..n {
                         let op = t.stale_op(rng, malformed);
